@@ -143,6 +143,13 @@ impl XmlConverter {
             if let Some(text) = text {
                 w.write(XmlEvent::characters(text))?;
             }
+            if name.is_none() && text.is_none() {
+                return Err(BuildError::new(
+                    "XML nodes must have either a name or a text field",
+                    ErrorType::TypeFail,
+                )
+                .to_boxed());
+            }
         } else if let Val::Str(s) = v {
             w.write(XmlEvent::characters(s.as_ref()))?;
         } else {
@@ -180,6 +187,18 @@ impl XmlConverter {
             }
             match root {
                 Some(n) => {
+                    // A document needs a root element, text alone is not one.
+                    let is_element = match n.as_ref() {
+                        Val::Tuple(fs) => fs.iter().any(|(k, _)| k.as_ref() == "name"),
+                        _ => false,
+                    };
+                    if !is_element {
+                        return Err(BuildError::new(
+                            "XML doc root must be an element: a tuple with a name field",
+                            ErrorType::TypeFail,
+                        )
+                        .to_boxed());
+                    }
                     let mut writer = EmitterConfig::new()
                         .perform_indent(true)
                         .normalize_empty_elements(false)
